@@ -10,6 +10,9 @@ import GqlVerif.Proofs.C01VariantSpreadG
 import GqlVerif.Proofs.C01RustSpread
 import GqlVerif.Proofs.C01DenyTreeClass
 import GqlVerif.Proofs.C01DenyFragWitness
+import GqlVerif.Proofs.C01MixedE
+import GqlVerif.Proofs.C01MixedF
+import GqlVerif.Proofs.C01MixedG
 open GqlVerif.C01
 #print axioms accepts_mono
 #print axioms conforming_int_accepted
@@ -163,3 +166,43 @@ open GqlVerif.C01
 #print axioms GqlVerif.C01.Deny.lone_spread_matters
 #print axioms GqlVerif.C01.Deny.sibling_key_covered
 #print axioms GqlVerif.C01.Deny.tn_condition_artifact
+-- MixedOp / MixedOp2: spreads at object positions AND at abstract positions of one operation (Proofs/C01Mixed*.lean, P38)
+#print axioms GqlVerif.C01M.mixed_items_shape
+#print axioms GqlVerif.C01M.mixed_accepts
+#print axioms GqlVerif.C01M.mixed_lossless
+#print axioms GqlVerif.C01M.mixed_roundtrip
+#print axioms GqlVerif.C01M.mixedOp_of_fragmentOp
+#print axioms GqlVerif.C01M.mixedOp_of_variantSpreadOp
+#print axioms GqlVerif.C01M.mixedKeysOk_of_fragKeysOk
+#print axioms GqlVerif.C01M.mixedKeysOk_of_variantSpreadOp
+#print axioms GqlVerif.C01M.mixedRustOk_of_fragRustOk
+#print axioms GqlVerif.C01M.mixedRustOk_of_spreadRustOkD
+#print axioms GqlVerif.C01M.conformsOpM_eq_F
+#print axioms GqlVerif.C01M.conformsOpM_eq_S
+#print axioms GqlVerif.C01M.bodyItemsM_eq_F
+#print axioms GqlVerif.C01M.bodyItemsM_eq_S
+#print axioms GqlVerif.C01M.canonSelM_eq_F
+#print axioms GqlVerif.C01M.canonSelM_eq_D
+#print axioms GqlVerif.C01M.mixed_roundtrip_on_S
+#print axioms GqlVerif.C01M.mixed_roundtrip_on_F'
+#print axioms GqlVerif.C01M.mx_not_F
+#print axioms GqlVerif.C01M.mx_not_S
+#print axioms GqlVerif.C01M.mx_class
+#print axioms GqlVerif.C01M.mx_items_shape
+#print axioms GqlVerif.C01M.mx_acceptsCat
+#print axioms GqlVerif.C01M.mx_roundtrip
+#print axioms GqlVerif.C01M.mx2_roundtrip
+#print axioms GqlVerif.C01M.mixed2_items_shape
+#print axioms GqlVerif.C01M.mixed2_accepts
+#print axioms GqlVerif.C01M.mixed2_lossless
+#print axioms GqlVerif.C01M.mixed2_roundtrip
+#print axioms GqlVerif.C01M.mixedOp2_of_mixedOp
+#print axioms GqlVerif.C01M.mixedOp2_of_variantSpreadOp2
+#print axioms GqlVerif.C01M.ex_not_F
+#print axioms GqlVerif.C01M.ex_not_S
+#print axioms GqlVerif.C01M.ex_not_S2
+#print axioms GqlVerif.C01M.ex_not_M
+#print axioms GqlVerif.C01M.ex_roundtrip
+#print axioms GqlVerif.C01M.mixed_keys_needed
+#print axioms GqlVerif.C01M.mixed_rust_needed
+#print axioms GqlVerif.C01M.mixed2_oi_needed
